@@ -97,25 +97,21 @@ pub fn d_min() {
     assert!(!o.ok || o.remaining == 0, "C13: a successful decode consumes exactly the item");
 }
 
-/// Decoder size gate on the UNSCALED source (literal 300): an outer list header announcing
-/// `l` payload bytes (long form f9 hi lo), followed by a list item where the signature string must
-/// be (so parsing stops right after the gate). Item length = 3 + l. The buffer holds the item and
-/// up to 64 more bytes.
-#[cfg_attr(kani, kani::proof)]
-#[cfg_attr(kani, kani::stub(enr::digest, digest_stub))]
-#[cfg_attr(kani, kani::stub(enr::Enr::id, id_stub))]
-#[cfg_attr(kani, kani::stub(<[u8]>::to_vec, to_vec_stub))]
-pub fn d_gate() {
+/// Decoder size gate on the UNSCALED source (literal 300). The input is an outer list header
+/// announcing `l` payload bytes (long form f9 hi lo) whose first item is a list where the signature
+/// string must be (so parsing stops right after the gate), followed by `extra` = 0..=1000 further
+/// bytes in the buffer. `l` is concrete per harness (the symbolic executor must be able to fold
+/// the header, otherwise it explores the whole decoder): item length 3 + l.
+#[inline(always)]
+fn gate_body(l: usize) {
     oracle();
-    let l = sym::u16() as usize;
-    sym::assume(l >= 256 && l <= 420);
     let extra = sym::usize();
-    sym::assume(extra <= 64);
-    let mut buf = [0u8; 3 + 420 + 64];
+    sym::assume(extra <= 1000);
+    let mut buf = [0u8; 1304];
     buf[0] = 0xf9;
     buf[1] = (l >> 8) as u8;
     buf[2] = l as u8;
-    buf[3] = 0xc0; // a list where the signature byte string has to be
+    buf[3] = 0xc0;
     let total = 3 + l;
     let mut s: &[u8] = &buf[..total + extra];
     let r = <Enr<MKey> as Decodable>::decode(&mut s);
@@ -123,11 +119,23 @@ pub fn d_gate() {
     let other_err = matches!(r, Err(alloy_rlp::Error::UnexpectedList));
     let is_ok = r.is_ok();
     core::mem::forget(r);
-    vcover!(size_err && total == 301, "301-byte item refused for size");
-    vcover!(other_err && total == 300, "300-byte item passes the gate");
+    vcover!(extra == 1000, "1000 bytes after the item");
+    vcover!(extra == 0, "nothing after the item");
     assert!(!is_ok, "C02: a record whose signature item is a list is rejected");
     assert!(size_err == (total > 300), "C09: the decoder refuses for size exactly the items longer than 300 bytes, whatever follows them");
-    assert!(size_err || other_err, "C02: an item within the limit is judged on its content");
+    assert!(size_err || other_err, "C13: an item within the limit is judged on its own content, whatever follows it");
+}
+#[cfg_attr(kani, kani::proof)]
+#[cfg_attr(kani, kani::stub(enr::digest, digest_stub))]
+#[cfg_attr(kani, kani::stub(enr::Enr::id, id_stub))]
+pub fn d_gate_300() {
+    gate_body(297)
+}
+#[cfg_attr(kani, kani::proof)]
+#[cfg_attr(kani, kani::stub(enr::digest, digest_stub))]
+#[cfg_attr(kani, kani::stub(enr::Enr::id, id_stub))]
+pub fn d_gate_301() {
+    gate_body(298)
 }
 
 /// T-min with the leanest set of observations (cost probe / fallback)
@@ -154,3 +162,4 @@ pub fn d_min_lite() {
     assert!(!ok || (calls >= 1 && vpub == pk), "C01: a record is accepted only after its signature was checked against the key it carries");
     assert!(!ok || remaining == 0, "C13: a successful decode consumes exactly the item");
 }
+
